@@ -1,4 +1,4 @@
-(** Proofs about Model/Control.v (property C39, after fix 9611840): the
+(** Proofs about Model/Control.v (property C39, after fix 8564431): the
     answer to a request reaches exactly the requester it was forwarded for,
     under the requester's own id, and never a local caller of the transit
     (and vice versa). *)
